@@ -720,6 +720,39 @@ theorem unregCenter_spec (E : Env) (o : Id) (f : Fwd) (r : DReg) :
       cases hc : f.initCenter <;> simp [itemsMem]
   rw [this]
 
+theorem unregShape_spec (E : Env) (o : Id) (f : Fwd) (r : DReg) :
+    (∀ l t, (unregShape E o f r l t).isSome = (r l t).isSome) ∧
+    ∀ l t x, memD (unregShape E o f r) l t x ↔ memD r l t x ∧ ¬(x = o ∧ l ∈ E.lanelets ∧ RecShapeD E f o t l) := by
+  unfold unregShape
+  obtain ⟨g1, g2⟩ := discardDyn_spec E o (E.t0 o) (f.initShape.getD []) r
+  have hinit : ∀ l, l ∈ f.initShape.getD [] ↔ ∃ ids, f.initShape = some ids ∧ l ∈ ids := by
+    intro l; cases f.initShape <;> simp
+  by_cases hk : E.kind o = Kind.dynTraj
+  · simp only [hk, if_true]
+    obtain ⟨k1, k2⟩ := discardItems_spec E o (f.predShape.getD []) (discardDyn E o (E.t0 o) (f.initShape.getD []) r)
+    have hpred : ∀ t l, itemsMem (f.predShape.getD []) t l ↔ ∃ d, f.predShape = some d ∧ itemsMem d t l := by
+      intro t l; cases f.predShape <;> simp [itemsMem]
+    refine ⟨fun l t => by rw [k1, g1], fun l t x => ?_⟩
+    rw [k2, g2, hinit, hpred]
+    unfold RecShapeD
+    simp only [hk, true_and]
+    constructor
+    · rintro ⟨⟨h1, h2⟩, h3⟩
+      refine ⟨h1, ?_⟩
+      rintro ⟨rfl, h4, (⟨rfl, h5⟩ | h5)⟩
+      · exact h2 ⟨rfl, rfl, h5, h4⟩
+      · exact h3 ⟨rfl, h4, h5⟩
+    · rintro ⟨h1, h2⟩
+      exact ⟨⟨h1, fun h3 => h2 ⟨h3.1, h3.2.2.2, Or.inl ⟨h3.2.1, h3.2.2.1⟩⟩⟩, fun h3 => h2 ⟨h3.1, h3.2.1, Or.inr h3.2.2⟩⟩
+  · simp only [hk, if_false]
+    refine ⟨g1, fun l t x => ?_⟩
+    rw [g2, hinit]
+    unfold RecShapeD
+    simp only [hk, false_and, or_false]
+    constructor
+    · rintro ⟨h1, h2⟩; exact ⟨h1, fun h3 => h2 ⟨h3.1, h3.2.2.1, h3.2.2.2, h3.2.1⟩⟩
+    · rintro ⟨h1, h2⟩; exact ⟨h1, fun h3 => h2 ⟨h3.1, h3.2.2.2, h3.2.1, h3.2.2.1⟩⟩
+
 theorem addToLanelets_spec (E : Env) (s s' : St) (o : Id) (h : addToLanelets E s o = .ok s') :
     s'.fwd = s.fwd ∧ s'.statics = s.statics ∧ s'.dynamics = s.dynamics ∧
     (E.kind o = Kind.static → s'.dreg = s.dreg ∧
@@ -910,23 +943,19 @@ theorem inv_remove {E : Env} {s s' : St} {o : Id} (hw : WfEnv E) (hi : Inv E s) 
             rw [hl] at this; cases this
         · rintro ⟨⟨h1, _⟩, h2⟩; exact ⟨h1, h2⟩
       · next hl =>
-        obtain ⟨r1, hr1, h⟩ := bind_ok.mp h
-        obtain ⟨r2, hr2, h⟩ := bind_ok.mp h
-        cases pure_ok.mp h
+        cases h
         refine ⟨hi.coh, hi.kindS, fun x hx => hi.kindD x (List.mem_filter.mp hx).1, hi.invS, ?_⟩
         intro l t x
-        show memD (unregCenter E o (s.fwd o) r2) l t x ↔ _
-        rw [(unregCenter_spec E o _ _).2, unregPred_spec E o _ _ _ hr2, (unregInit_spec E o _ _ _ hr1).2, hi.invD]
+        show memD (unregCenter E o (s.fwd o) (unregShape E o (s.fwd o) s.dreg)) l t x ↔ _
+        rw [(unregCenter_spec E o _ _).2, (unregShape_spec E o _ _).2, hi.invD]
         simp only [true_and, List.mem_filter, decide_eq_true_eq]
         constructor
-        · rintro ⟨⟨⟨⟨h1, h2⟩, h3⟩, h4⟩, _⟩
+        · rintro ⟨⟨⟨h1, h2⟩, h3⟩, _⟩
           refine ⟨⟨h1, ?_⟩, h2⟩
           rintro rfl
-          rcases h2 with ⟨e, h5⟩ | ⟨hk, h5⟩
-          · exact h3 ⟨rfl, e, h5⟩
-          · exact h4 ⟨rfl, hk, h5⟩
+          exact h3 ⟨rfl, hw.shp_sub _ _ _ (RecShapeD.sound (hi.coh _) h2).1, h2⟩
         · rintro ⟨⟨h1, h2⟩, h3⟩
-          exact ⟨⟨⟨⟨h1, h3⟩, fun h4 => h2 h4.1⟩, fun h4 => h2 h4.1⟩, fun h4 => h2 h4.1⟩
+          exact ⟨⟨⟨h1, h3⟩, fun h4 => h2 h4.1⟩, fun h4 => h2 h4.1⟩
     · cases h; exact hi
 
 /-! ### assign_obstacles_to_lanelets keeps the invariant -/
@@ -1872,44 +1901,13 @@ theorem assigned_reopenPb {E : Env} {s s' : St} (h : reopenPb E s = .ok s') :
 
 /-! ### totality: removing never fails -/
 
-theorem remove_total {E : Env} {s : St} (hw : WfEnv E) (hi : Inv E s) (o : Id) : ∃ s', remove E s o = .ok s' := by
+/-- the repaired `remove_obstacle` cannot raise: every loop is guarded -/
+theorem remove_total (E : Env) (s : St) (o : Id) : ∃ s', remove E s o = .ok s' := by
   unfold remove
   split
   · exact ⟨_, rfl⟩
   · split
-    · next hod =>
-      split
-      · exact ⟨_, rfl⟩
-      · -- dynamic: every key that is looked up exists
-        have h1 : ∃ r1, unregInit E o (s.fwd o) s.dreg = .ok r1 := by
-          unfold unregInit
-          split
-          · exact ⟨_, rfl⟩
-          · next ids hs =>
-            have e := (hi.coh o).initShape ids hs
-            apply unregDyn_ok
-            intro l hl
-            refine ⟨effShp_sub hw (e ▸ hl), ?_⟩
-            obtain ⟨st, h3, _⟩ := (hi.invD l (E.t0 o) o).mpr ⟨trivial, hod, Or.inl ⟨rfl, ids, hs, hl⟩⟩
-            rw [h3]; rfl
-        obtain ⟨r1, hr1⟩ := h1
-        have h2 : ∃ r2, unregPred E o (s.fwd o) r1 = .ok r2 := by
-          unfold unregPred
-          split
-          · next hk =>
-            split
-            · exact ⟨_, rfl⟩
-            · next d hd =>
-              apply unregItems_ok
-              intro t ids hm l hl
-              obtain ⟨e, _, _⟩ := (hi.coh o).predShape d hd t ids hm
-              refine ⟨hw.shp_sub o t l (e ▸ hl), ?_⟩
-              rw [(unregInit_spec E o _ _ _ hr1).1]
-              obtain ⟨st, h3, _⟩ := (hi.invD l t o).mpr ⟨trivial, hod, Or.inr ⟨hk, d, hd, ids, hm, hl⟩⟩
-              rw [h3]; rfl
-          · exact ⟨_, rfl⟩
-        obtain ⟨r2, hr2⟩ := h2
-        exact ⟨_, by rw [hr1]; simp only [bind, Except.bind]; rw [hr2]; rfl⟩
+    · split <;> exact ⟨_, rfl⟩
     · exact ⟨_, rfl⟩
 
 theorem dictGet_mem : ∀ (d : Dict) (t : T) (v : List Id), dictGet d t = some v → (t, v) ∈ d := by
